@@ -42,4 +42,8 @@ VARIANTS = [
         dict(file=D, old="                           type='unmapped-atom')\n            continue\n        needed_mod_mappings.update(covered_by)", new="                           type='unmapped-atom')\n            break\n        needed_mod_mappings.update(covered_by)")]),
     dict(name='attrs_from_node-applies-replacements-to-the-original', expect='fire', key='ALIAS-source|vermouth/processors/do_mapping.py|attrs_from_node|node', edits=[
         dict(file=D, old="        node = node.copy()\n        node.update(node['replace'])", new="        work = node.copy()\n        node.update(node['replace'])\n        node = work")]),
+    dict(name='helper edges_between looks at one direction of the bunches only', expect='fire', key='HELPER-contract|vermouth/molecule.py|Molecule.edges_between', edits=[
+        dict(file='vermouth/molecule.py', old="            cross = set_2 & set(self[node1])", new="            cross = {n for n in set_2 & set(self[node1]) if n > node1}")]),
+    dict(name='helper attributes_match stops at the first attribute', expect='fire', key='HELPER-contract|vermouth/molecule.py|attributes_match', edits=[
+        dict(file='vermouth/molecule.py', old="            if isinstance(value, LinkPredicate) and value.match(attributes, attr):\n                continue\n            return False\n    return True", new="            if isinstance(value, LinkPredicate) and value.match(attributes, attr):\n                continue\n            return False\n        return True\n    return True")]),
 ]
